@@ -22,9 +22,11 @@ COUNTERS = ("arrays", "asize", "maps", "nodes", "objs", "progs", "strs", "sent")
 
 
 def script_of(h):
-    ops = ["proj stats", "call /obj/rc1 nop", "call /obj/rc2 nop", "call /obj/rc1 dest", "call /obj/rc2 dest",
+    ops = ["proj stats", "backend", "connect u1", "cycle", "line u1 name u1", "cycle",
+           "line u1 do me xcall2:/obj/rc1:inp:name:0", "cycle", "line u1 warm", "cycle", "call /obj/rc1 nop", "call /obj/rc2 nop", "call /obj/rc1 dest", "call /obj/rc2 dest",
            "note B0", "snapshot", "leakcheck base", "call /obj/rc1 nop", "call /obj/rc2 nop", "note Base", "snapshot"]
     alive = {"o1": True, "o2": True}
+    pending = False
     for s in h:
         o = OB[s["o"]]
         op = s["op"]
@@ -43,13 +45,25 @@ def script_of(h):
         elif op == "callout":
             ops.append("call %s callout #%d" % (o, s["i"]))
         elif op == "rmco":
-            ops.append("call %s rmco" % o)
+            ops.append("call %s %s" % (o, "rmco_h" if s.get("by") == "handle" else "rmco"))
+        elif op == "inp":
+            # while an input_to is pending the next line would go to its callback: the command is escaped with '!'
+            ops += ["line u1 %sdo me xcall2:%s:inp:%s:%d" % ("!" if pending else "", o, s["form"], s["i"]), "cycle"]
+            pending = True
+        elif op == "line":
+            ops += ["line u1 %s" % s["res"], "cycle"]
+            pending = False
+        elif op == "drop":
+            ops += ["hangup u1", "cycle"]
+            pending = False
         elif op == "err":
             ops.append("call %s err #%d #%d" % (o, s["i"], s["kind"]))
         elif op == "dest":
             ops.append("call %s dest" % o)
             alive[s["o"]] = False
         ops += ["note Op " + json.dumps(s, separators=(",", ":")), "snapshot"]
+    if pending:     # a pending input_to is served before the final comparison
+        ops += ["line u1 ok", "cycle", "note Op " + json.dumps({"op": "line", "o": "o1", "res": "ok"}, separators=(",", ":")), "snapshot"]
     for k in ("o1", "o2"):
         if alive[k]:
             ops += ["call %s dest" % OB[k], "note Op " + json.dumps({"op": "dest", "o": k}, separators=(",", ":")), "snapshot"]
